@@ -62,8 +62,8 @@ func (e *Env) RUniqueNames() {
 	if conflict == nil {
 		ast.Inspect(findAlias.Body, func(n ast.Node) bool {
 			fs, ok := n.(*ast.ForStmt)
-			if !ok || fs.Init != nil || fs.Post != nil || fs.Cond == nil {
-				return true
+			if !ok || fs.Cond == nil {
+				return true // (an init/post statement only drives the counter of the candidates)
 			}
 			if ix, ok := ast.Unparen(fs.Cond).(*ast.IndexExpr); ok {
 				sid, ok1 := ix.X.(*ast.Ident)
@@ -160,7 +160,7 @@ func (e *Env) RUniqueNames() {
 	loopTests := false
 	ast.Inspect(findAlias.Body, func(n ast.Node) bool {
 		fs, ok := n.(*ast.ForStmt)
-		if !ok || fs.Init != nil || fs.Post != nil || fs.Cond == nil {
+		if !ok || fs.Cond == nil {
 			return true
 		}
 		if call, ok := fs.Cond.(*ast.CallExpr); ok && len(call.Args) == 1 {
@@ -1356,6 +1356,17 @@ func (e *Env) goastImports() {
 				}
 			case *ast.ReturnStmt:
 				// helper form: `return false, E` is the refusal `outer = E`
+				if helper != nil && len(x.Results) == 1 && c.ExprStr(x.Results[0]) != "nil" && types.Identical(c.Info.TypeOf(x.Results[0]), types.Universe.Lookup("error").Type()) {
+					// a helper that returns only the refusal
+					cond, okc := pathCond(c, body, x)
+					if !okc {
+						undecided = true
+					}
+					if cond == "" {
+						cond = "true"
+					}
+					asgs = append(asgs, asg{"outer", c.ExprStr(x.Results[0]), cond, x.Pos()})
+				}
 				if (helper != nil || specLoop != nil) && len(x.Results) == 2 && c.ExprStr(x.Results[1]) != "nil" {
 					cond, okc := pathCond(c, body, x)
 					if !okc {
@@ -1424,10 +1435,18 @@ func (e *Env) goastImports() {
 		}
 	}
 	if specLoop != nil {
+		// a variable that receives the helper's refusal in the loop (tested again after it)
+		loopErrVar := "outer"
+		ast.Inspect(specLoop.Body, func(n ast.Node) bool {
+			if as, ok := n.(*ast.AssignStmt); ok && len(as.Lhs) == 1 && len(as.Rhs) == 1 && helperCall != nil && ast.Unparen(as.Rhs[0]) == ast.Expr(helperCall) {
+				loopErrVar = types.ExprString(as.Lhs[0])
+			}
+			return true
+		})
 		e.checkReturnsZ("R-RESOLVER", c, fd, "goast.imports", "∅", []wantReturn{
 			{what: "a cached table is returned as it is", result: "r.files[file]", cond: "ok(r.files[file])"},
 			{what: "a refusal leaves with an error, not with a partial table", result: "nil", err: "!nil", cond: "*"},
-			{what: "otherwise the new table", result: table, cond: "!ok(r.files[file])"},
+			{what: "otherwise the new table", result: table, cond: "!ok(r.files[file])", alt: "!ok(r.files[file]) && " + loopErrVar + " == nil"},
 		}, "")
 		e.goastLoopReachesEverySpec(c, fd, specLoop)
 	} else {
@@ -1497,6 +1516,22 @@ func (e *Env) goastSpecLoop(c *schema.Ctx, fd *ast.FuncDecl) *ast.RangeStmt {
 							if b, ok := mt.Key().Underlying().(*types.Basic); ok && b.Kind() == types.String && (best == nil || (best.Pos() <= cur.Pos() && cur.End() <= best.End())) {
 								best = cur
 							}
+						}
+					}
+				}
+			case *ast.CallExpr:
+				// the per-spec code in a same-package helper that is handed the table
+				if cur == nil {
+					return true
+				}
+				fn := c.Callee(x)
+				if fn == nil || fn.Pkg() != c.Pkg.Types || fn.Name() == "mustUnquote" {
+					return true
+				}
+				for _, a := range x.Args {
+					if mt, isMap := c.Info.TypeOf(a).Underlying().(*types.Map); isMap {
+						if b, ok := mt.Key().Underlying().(*types.Basic); ok && b.Kind() == types.String && (best == nil || (best.Pos() <= cur.Pos() && cur.End() <= best.End())) {
+							best = cur
 						}
 					}
 				}
@@ -1668,6 +1703,18 @@ func (e *Env) goastLoopReachesEverySpec(c *schema.Ctx, fd *ast.FuncDecl, specLoo
 		return
 	}
 	isImport := "ok(" + declVar + ".(*GenDecl)) && " + declVar + ".(*GenDecl).Tok == token.IMPORT"
+	// a declaration has one dynamic type: being a *GenDecl it is no other pointer type
+	otherType := regexp.MustCompile(`ok\(` + regexp.QuoteMeta(declVar) + `\.\(\*(\w+)\)\)`)
+	exclusive := func(cond string) string {
+		out, seen := isImport, map[string]bool{}
+		for _, m := range otherType.FindAllStringSubmatch(cond, -1) {
+			if m[1] != "GenDecl" && !seen[m[1]] {
+				seen[m[1]] = true
+				out += " && !ok(" + declVar + ".(*" + m[1] + "))"
+			}
+		}
+		return out
+	}
 	good := true
 	detail := ""
 	ast.Inspect(outer.Body, func(n ast.Node) bool {
@@ -1692,7 +1739,7 @@ func (e *Env) goastLoopReachesEverySpec(c *schema.Ctx, fd *ast.FuncDecl, specLoo
 		if cond == "" {
 			cond = "true"
 		}
-		excl, dec := unsatWith(cond, isImport)
+		excl, dec := unsatWith(cond, exclusive(cond))
 		if !okc || !dec {
 			e.Run.Undecided("R-RESOLVER", key, e.Prog.Pos(leave.Pos()), "condition not propositional: "+cond)
 			return true
@@ -1710,13 +1757,13 @@ func (e *Env) goastLoopReachesEverySpec(c *schema.Ctx, fd *ast.FuncDecl, specLoo
 		return
 	}
 	if cond != "" {
-		if skipped, dec := unsatWith(isImport, cond); !dec {
+		if skipped, dec := unsatWith(exclusive(cond), cond); !dec {
 			e.Run.Undecided("R-RESOLVER", key, pos, "condition not propositional: "+cond)
 			return
 		} else if skipped {
 			good = false
 			detail = "the spec loop runs under `" + cond + "`, which excludes import declarations"
-		} else if implied, dec2 := unsatWith(isImport, schema.NegGuard("("+cond+")")); dec2 && !implied {
+		} else if implied, dec2 := unsatWith(exclusive(cond), schema.NegGuard("("+cond+")")); dec2 && !implied {
 			good = false
 			detail = "the spec loop runs only under `" + cond + "`, which does not hold for every import declaration"
 		}
@@ -2207,4 +2254,140 @@ func (e *Env) RAddsEveryMissing() {
 	})
 	e.Run.Analysed("import-spec additions", n)
 	e.Run.Floor("R-ADD", "import-spec additions in updateImports", n, 1)
+}
+
+// RCarry: what the resolver found is what the tree carries. (1) decorate's Ident case stores the
+// result of its one resolvePath call into out.Path (and n.Name into out.Name); (2) in
+// decorateSelectorExpr every store into the collapsed identifier's Name is n.Sel.Name and every
+// store into its Path is the result of the forced resolvePath call — a qualified identifier
+// becomes (path of the package, name of the selected object), whatever the file called the
+// package; (3) restoreIdent reads back exactly these two fields: the selector's Sel is built
+// from n.Name. Without these stores the resolvers' answers never reach the tree, however right
+// they are.
+func (e *Env) RCarry() {
+	pkg := e.Prog.Pkg(load.PkgDecorator)
+	c := e.Sib.Ctx[load.PkgDecorator]
+	// (1) generated Ident case
+	if cs := e.Sib.ByName["decorate"].Cases["Ident"]; cs != nil {
+		nPath, nameOK := 0, false
+		for _, ev := range cs.Events {
+			switch {
+			case ev.Kind == schema.KPath:
+				nPath++
+				e.Run.Check("R-CARRY", "decorate Ident: the resolved path is stored in out.Path", e.Prog.Pos(ev.Pos), ev.Field == "Path" && ev.ErrOK,
+					"the result of resolvePath must be assigned to out.Path after its error is checked; found field `"+ev.Field+"`")
+			case ev.Kind == schema.KValue && ev.Field == "Name":
+				nameOK = ev.Src == "Name" && ev.Guard == ""
+			case ev.Kind == schema.KValue && ev.Field == "Path":
+				e.Run.Check("R-CARRY", "decorate Ident: out.Path only comes from resolvePath", e.Prog.Pos(ev.Pos), false, "out.Path = "+ev.Expr)
+			}
+		}
+		e.Run.Check("R-CARRY", "decorate Ident: exactly one resolvePath result is stored", e.casePos(cs), nPath == 1, fmt.Sprintf("%d resolvePath results stored into the identifier (a result that is dropped leaves every reference unresolved)", nPath))
+		e.Run.Check("R-CARRY", "decorate Ident: out.Name = n.Name", e.casePos(cs), nameOK, "the identifier's name must be copied unconditionally")
+	} else {
+		e.Run.Violation("R-CARRY", "decorate has an Ident case", "", "missing")
+	}
+	// (2) decorateSelectorExpr
+	fd := load.FuncDecl(pkg, "fileDecorator", "decorateSelectorExpr")
+	if fd == nil || fd.Body == nil {
+		e.Run.Violation("R-CARRY", "decorateSelectorExpr exists", "", "missing")
+		return
+	}
+	var outObj types.Object
+	var allocStmt *ast.AssignStmt
+	ast.Inspect(fd.Body, func(n ast.Node) bool {
+		if as, ok := n.(*ast.AssignStmt); ok && as.Tok == token.DEFINE && len(as.Lhs) == 1 && len(as.Rhs) == 1 && outObj == nil {
+			if u, ok := as.Rhs[0].(*ast.UnaryExpr); ok && u.Op == token.AND {
+				if cl, ok := u.X.(*ast.CompositeLit); ok && strings.HasSuffix(c.ExprStr(cl.Type), "Ident") {
+					outObj = c.Info.Defs[as.Lhs[0].(*ast.Ident)]
+					allocStmt = as
+					// fields set in the literal itself
+					for _, el := range cl.Elts {
+						if kv, ok := el.(*ast.KeyValueExpr); ok {
+							e.carryStore(c, fd, c.ExprStr(kv.Key), kv.Value, kv.Pos())
+						}
+					}
+				}
+			}
+		}
+		return true
+	})
+	if outObj == nil {
+		e.Run.Undecided("R-CARRY", "decorateSelectorExpr allocates the collapsed identifier", e.Prog.Pos(fd.Pos()), "no `x := &dst.Ident{…}`")
+		return
+	}
+	undo := c.InstallReaching(fd)
+	seen := map[string]int{}
+	// the condition under which the identifier is handed back
+	allocCond := ""
+	ast.Inspect(fd.Body, func(n ast.Node) bool {
+		if rs, ok := n.(*ast.ReturnStmt); ok && len(rs.Results) >= 1 {
+			if id, ok := rs.Results[0].(*ast.Ident); ok && c.ObjOf(id) == outObj {
+				cd, _ := pathCond(c, fd.Body.List, rs)
+				if allocCond == "" {
+					allocCond = "(" + orTrue(cd) + ")"
+				} else {
+					allocCond += " || (" + orTrue(cd) + ")"
+				}
+			}
+		}
+		return true
+	})
+	_ = allocStmt
+	ast.Inspect(fd.Body, func(n ast.Node) bool {
+		as, ok := n.(*ast.AssignStmt)
+		if !ok || len(as.Lhs) != len(as.Rhs) {
+			return true
+		}
+		for i, l := range as.Lhs {
+			if p, ok := c.Path(l, outObj); ok && (p == "Name" || p == "Path") {
+				seen[p]++
+				cond, okc := pathCond(c, fd.Body.List, as)
+				e.carryStoreStr(p, c.ExprStr(as.Rhs[i]), cond, as.Pos())
+				// set whenever the identifier is created
+				missing, dec := unsatWith("("+orTrue(allocCond)+")", schema.NegGuard("("+orTrue(cond)+")"))
+				eq := missing // no way to return the identifier without having passed the store
+				if !okc || !dec {
+					e.Run.Undecided("R-CARRY", "decorateSelectorExpr: out."+p+" is set whenever the identifier is returned", e.Prog.Pos(as.Pos()), "condition not propositional: "+cond)
+				} else {
+					e.Run.Check("R-CARRY", "decorateSelectorExpr: out."+p+" is set whenever the identifier is returned", e.Prog.Pos(as.Pos()), eq,
+						"the identifier is returned under `"+orTrue(allocCond)+"` but out."+p+" is only stored under `"+orTrue(cond)+"`")
+				}
+			}
+		}
+		return true
+	})
+	undo()
+	for _, f := range []string{"Name", "Path"} {
+		e.Run.Check("R-CARRY", "decorateSelectorExpr: the collapsed identifier's "+f+" is set", e.Prog.Pos(fd.Pos()), seen[f] >= 1, "no store into out."+f+": a qualified identifier would lose its "+strings.ToLower(f))
+	}
+	e.Run.Floor("R-CARRY", "stores into the collapsed identifier's Name/Path", seen["Name"]+seen["Path"], 2)
+}
+
+func (e *Env) carryStore(c *schema.Ctx, fd *ast.FuncDecl, field string, rhs ast.Expr, pos token.Pos) {
+	if field != "Name" && field != "Path" {
+		return
+	}
+	undo := c.InstallReaching(fd)
+	defer undo()
+	e.carryStoreStr(field, c.ExprStr(rhs), "", pos)
+}
+
+func (e *Env) carryStoreStr(field, rhs, cond string, pos token.Pos) {
+	const ask = `f.resolvePath(true, n, "SelectorExpr", "Sel", "Ident", n.Sel)`
+	switch field {
+	case "Name":
+		e.Run.Check("R-CARRY", "decorateSelectorExpr: the collapsed identifier is named after the selected object", e.Prog.Pos(pos), rhs == "n.Sel.Name",
+			"out.Name = "+rhs+"; a qualified identifier pkg.Name must become the identifier Name (with Path = the package's path)")
+	case "Path":
+		e.Run.Check("R-CARRY", "decorateSelectorExpr: the collapsed identifier's path is the resolver's answer for Sel", e.Prog.Pos(pos), rhs == "res0("+ask+")" || rhs == ask,
+			"out.Path = "+rhs+"; expected the first result of "+ask)
+	}
+}
+
+func orTrue(c string) string {
+	if c == "" {
+		return "true"
+	}
+	return c
 }
